@@ -373,7 +373,7 @@ package task
 
 //@ func (*Executor).statusOnError
 //@   site fingerprint.NewSourcesChecker#1 requires arg0 == (t.Method != "" ? t.Method : e.Taskfile.Method)
-//@        && arg1 == e.TempDir.Fingerprint && arg2 == e.Dry                                           [C04]
+//@        && arg1 == e.TempDir.Fingerprint && arg2 == e.Dry                                           [C04,C05]
 
 //@ func (*Executor).Status
 
@@ -388,7 +388,6 @@ package task
 //@   modifies heap, om_has, om_val, om_len, om_key
 //@   preserves $RUNDATA
 //@   nilable result
-//@   ensures result.1 == nil ==> result.0 != nil
 
 // ---- C19: --init never overwrites an existing file ---------------------------------------------------
 //@ func InitTaskfile
@@ -504,17 +503,17 @@ package task
 //@   site env.GetEnviron#1 ghost layer := 1
 //@   site (*Compiler).getSpecialVars#1 requires layer == 1                                                    [C10]
 //@   site (*Compiler).getSpecialVars#1 ghost layer := 2
-//@   site (*Vars).All#1 requires layer == 2 && arg0 == c.TaskfileEnv                                          [C10]
+//@   site (*Vars).All#1 requires layer == 2 && arg0 == c.TaskfileEnv                                          [C10,C02]
 //@   site (*Vars).All#1 ghost layer := 3
-//@   site (*Vars).All#2 requires layer == 3 && arg0 == c.TaskfileVars                                         [C10]
+//@   site (*Vars).All#2 requires layer == 3 && arg0 == c.TaskfileVars                                         [C10,C02]
 //@   site (*Vars).All#2 ghost layer := 4
-//@   site (*Vars).All#3 requires layer == 4 && arg0 == t.IncludeVars                                          [C10]
+//@   site (*Vars).All#3 requires layer == 4 && arg0 == t.IncludeVars                                          [C10,C02]
 //@   site (*Vars).All#3 ghost layer := 5
-//@   site (*Vars).All#4 requires layer == 5 && arg0 == t.IncludedTaskfileVars                                 [C10]
+//@   site (*Vars).All#4 requires layer == 5 && arg0 == t.IncludedTaskfileVars                                 [C10,C02]
 //@   site (*Vars).All#4 ghost layer := 6
-//@   site (*Vars).All#5 requires layer == 6 && arg0 == call.Vars                                              [C10]
+//@   site (*Vars).All#5 requires layer == 6 && arg0 == call.Vars                                              [C10,C02]
 //@   site (*Vars).All#5 ghost layer := 7
-//@   site (*Vars).All#6 requires layer == 7 && arg0 == t.Vars                                                 [C10]
+//@   site (*Vars).All#6 requires layer == 7 && arg0 == t.Vars                                                 [C10,C02]
 //@ func (*Compiler).getSpecialVars
 //@   trusted
 //@   pure allocates
